@@ -7,7 +7,7 @@ PROP = "C01"
 
 def cfgs(tier):
     if tier == "quick":
-        return [Cfg("asm", 4, 2, 4), Cfg("c32", 3, 3, 3)]
+        return hb.quick_cfgs()
     return hb.five_backends() + [Cfg("c32", 3, 3, 3), Cfg("c64", 2, 1, 2), Cfg("asm", 3, 1, 3), Cfg("c64", 4, 4, 4), Cfg("asm", 2, 2, 2), Cfg("c32", 4, 3, 4)]
 
 
